@@ -11,6 +11,7 @@ import Driver.ShellOps
 import Driver.RenderOps
 import Driver.LedgerOps
 import Driver.SummOps
+import Driver.ParseOps
 namespace Bql
 
 def showDesc (d : List (String × Ty)) : String :=
@@ -70,6 +71,8 @@ def handle (st : DState) (sx : Sexp) : DState × String :=
   | .list (.atom "render" :: _) => (st, (handleRender sx).getD "bad-op")
   | .list (.atom "tablerows" :: _) => (st, (handleLedger sx).getD "bad-op")
   | .list (.atom "prepare" :: _) => (st, (handleSumm sx).getD "bad-op")
+  | .list (.atom "parse" :: _) => (st, (handleParse sx).getD "bad-op")
+  | .list (.atom "lex" :: _) => (st, (handleParse sx).getD "bad-op")
   | .list (.atom "numberify" :: _) => (st, (handleNumberify sx).getD "bad-op")
   | .list (.atom "cursor" :: _) => (st, (handleCursor sx).getD "bad-op")
   | .list [.atom "modelled-functions"] => (st, " ".intercalate modelledFunctions)
